@@ -164,6 +164,15 @@ def main():
     CC.conc_trace_validate(v3, bad_runs, "selftest")
     print("lock log with one write acquisition on `usage_by_fixture` doubled rejected:", v3.drift >= 1)
     good = good and c_ok and v2.drift >= 1 and v3.drift >= 1
+    # ---- Apalache: Mirror / DefKeyed inductive on MirrorInd.tla; the unguarded fresh-path step (negative control) breaks them
+    import apalache
+    try:
+        ap = apalache.mirror_inductive()
+        print("MirrorInd.tla: base and inductive step hold, unguarded fresh path refuted:", True,
+              "|", {k: v["outcome"] for k, v in ap["runs"].items()})
+    except C.ToolError as e:
+        print("MirrorInd.tla:", e)
+        good = False
     # ---- vacuity guard: every action of the state-machine configurations is taken, no branch of theirs is never evaluated
     import vacuity
     good = vacuity.main() and good
